@@ -44,7 +44,7 @@ PROPS = {
     'C10': dict(groups=['parse', 'fen', 'pgn'], ops={'pmove': ['r', 'rr'], 'psq': ['r'], 'pfile': ['r'], 'prank': ['r'],
                                               'ppiece': ['r'], 'g.frompgn': ['r'], 'pfen': ['b', 'c', 'g'], 'g.pgn': ['rt']},
                 classes_only={'pfen': ['b', 'c', 'g'], 'g.pgn': ['rt'], 'g.frompgn': ['r']}),
-    'C11': dict(groups=['game'], ops={'g.new': ['status', 'cnt', 'cnts'], 'g.act': ['status', 'cnt', 'cnts']}),
+    'C11': dict(groups=['game'], ops={'g.new': ['status', 'cnt', 'cnts'], 'g.act': ['status', 'cnt', 'cnts'], 'g.probe': ['cnt']}),
     'C12': dict(groups=['game'], ops={'g.new': ['status', 'tag', 'hlen'], 'g.act': ['r', 'status', 'tag', 'hlen', 'fen', 'hash', 'cnts']}),
     'C13': dict(groups=['game'], ops={'g.hist': ['text', 'lookup', 'flags', 'chain'], 'g.act': ['hlen']}),
     'C14': dict(groups=['san'], ops={'sanall': ['sans', 'dup', 'illegal']}),
